@@ -1,10 +1,10 @@
 SPECIFICATION Spec
 CONSTANTS
   OldOrder = FALSE
-  SyncNotify = FALSE
+  SyncNotify = TRUE
   UnregUnderRead = FALSE
   HbLeak = FALSE
-  RetentionHoldsRead = FALSE
+  RetentionHoldsRead = TRUE
 INVARIANTS LocksConsistent
 PROPERTIES WriteReturns AllReturn
 CHECK_DEADLOCK TRUE
